@@ -82,6 +82,28 @@ def routes(text, tmpdir, tag, bom, crlf=False):
                 finally:
                     th.join(10)
             return run
+        def with_mode(fn, mode):
+            def run(**kw):
+                import tempfile
+                if mode == 'tmp':
+                    fh = tempfile.TemporaryFile('w+', encoding='utf8', newline='', dir=tmpdir)
+                else:
+                    pm = os.path.join(tmpdir, f'{tag}.{mode.replace("+", "p")}.dbml')
+                    if mode == 'r+':
+                        with open(pm, 'w', encoding='utf8', newline='') as f0:
+                            f0.write(text)
+                    elif os.path.exists(pm):
+                        os.unlink(pm)           # (a+ would append to what an earlier call left behind)
+                    fh = open(pm, mode, encoding='utf8', newline='')
+                with fh:
+                    if mode != 'r+':
+                        fh.write(text)
+                        fh.seek(0)
+                    return fn(fh, **kw)
+            return run
+        for mode in ('r+', 'w+', 'a+', 'tmp'):
+            extra.append((f'PyDBML(file:mode-{mode})', True, with_mode(lambda fh, **kw: PyDBML(fh, **kw), mode)))
+            extra.append((f'parse_file(file:mode-{mode})', False, with_mode(lambda fh, **kw: PyDBML.parse_file(fh), mode)))
         extra.append(('PyDBML(file:pipe)', True, with_pipe(lambda fh, **kw: PyDBML(fh, **kw))))
         extra.append(('parse_file(file:pipe)', False, with_pipe(lambda fh, **kw: PyDBML.parse_file(fh))))
         # options passed by position (documented order: source, allow_properties, sql_renderer, dbml_renderer)
@@ -183,8 +205,8 @@ def run_shard(spec, tier, seed, budget_s):
                 ref0, _ = outcome(lambda **kw2: PyDBML.parse(text), {})
                 for bom, crlf in ((False, False), (True, False), (False, True), (True, True)):
                     for name, takes, thunk in routes(text, tmpdir, f'd{k}', bom, crlf):
-                        if not takes and kw:
-                            continue
+                        if not takes and kw and (bom or crlf or ':' in name):
+                            continue        # (option-less routes are repeated after option-carrying calls in one layout only)
                         if crlf and ('str' in name.split('(')[-1] and 'parse_file' not in name or name in ('PyDBML.parse', 'PyDBML().parse')):
                             continue          # string routes do not read the file
                         if crlf:
@@ -228,6 +250,19 @@ def run_shard(spec, tier, seed, budget_s):
                             if 'sql_renderer' in kw and (db.sql_renderer is not RecSQL or db.dbml_renderer is not RecDBML
                                                          or not db.sql.startswith('-- recorded') or not db.dbml.startswith('// recorded')):
                                 sh.violation('option', f'option-lost:renderers:{name}', f'{name}: renderer classes not in effect', case)
+            # ---- a one-line text that happens to name an existing file is still text
+            if k % 3 == 0 and not sh.out_of_time():
+                pf = os.path.join(tmpdir, f'named{k}.dbml')
+                with open(pf, 'w', encoding='utf8') as f:
+                    f.write('Table from_file {\n  id int\n}\n')
+                for tline in ('/' + pf, '// ' + pf, pf.replace(tmpdir, '//' + tmpdir.lstrip('/'))):     # `//tmp/...` is a comment AND a path
+                    want_t, _ = outcome(lambda **kw: PyDBML.parse(tline), {})
+                    for name, call in (('PyDBML(str)', lambda: PyDBML(tline)), ('PyDBML().parse', lambda: PyDBML().parse(tline))):
+                        got_t, _ = outcome(lambda **kw: call(), {})
+                        sh.count('obs.text_that_names_a_file')
+                        if got_t != want_t:
+                            sh.violation('route', f'route-differs:{name}:text-names-a-file', f'{name}: the one-line text {tline!r} is not treated as text',
+                                         {'kind': 'route', 'text': tline, 'route': name, 'bom': False, 'options': 'default'})
             # ---- two byte order marks: only the first one is a mark, and every route agrees on that
             if not sh.out_of_time():
                 dbl = '\ufeff\ufeff' + text
